@@ -24,7 +24,7 @@ EXPLANATION = (
 NOT_DECIDED = ["the DSSP rule logic over arbitrary H-bond patterns (helix priority, ladder merging, bulges): combinatorial, not decided",
                "agreement with the reference DSSP program"]
 ASSUMPTIONS = ["documented codes: H B E G I T S and blank; simplified: H,G,I -> H; E,B -> E; T,S,blank -> C; non-protein residues -> 'NA'"]
-FLOORS = {"C15-R1": 14, "C15-R2": 12, "C15-R3": 6, "C15-R4": 3}
+FLOORS = {"C15-R1": 14, "C15-R2": 12, "C15-R3": 6, "C15-R4": 3, "C15-R5": 16}
 
 DP = "mdtraj/geometry/dssp.py"
 DC = "mdtraj/geometry/src/dssp.cpp"
@@ -42,6 +42,8 @@ def check(ctx):
     ctx.analysed_files.add(DC)
     ctx.rule("C15-R4", "the parallel and antiparallel bulge tests are mirror images with the DSSP gap thresholds (< 6 / < 3, or < 3)")
     r4_bulge(ctx, cf)
+    ctx.rule("C15-R5", "minimal n-helices: two consecutive n-turns at i-1 and i mark residues i .. i+n-1; a conditional marking scans exactly the span it writes; order H, G, I; loop bounds keep reads and writes inside the chain array")
+    r5_helix_spans(ctx, cf)
 
     # ---------------- R1 ------------------------------------------------------------------------
     fn = cf.function(DC, "dssp")
@@ -181,3 +183,91 @@ def r4_bulge(ctx, cf):
         got = [(op, int(v)) for _, _, op, v in cmps]
         ctx.decide(got == [("<", 6), ("<", 3), ("<", 3)], "C15-R4", C.line(a), DC, "calculate_beta_sheets", "%s bulge gaps: < 6 with < 3 on the other strand, or < 3" % nm, "",
                    "the %s bulge thresholds are %s; DSSP merges ladders separated by at most 4 residues on one strand and 1 on the other (gaps < 6 and < 3)" % (nm, got))
+
+
+# ---------------------------------------------------------------------------------------------------
+def _init_text(n):
+    """`v=<init>` of a for-loop initialiser (declaration or assignment), white space and parentheses removed."""
+    if n["kind"] == "DeclStmt":
+        d = [k for k in C.kids(n) if k["kind"] == "VarDecl"]
+        if len(d) == 1 and C.kids(d[0]):
+            return "%s=%s" % (d[0].get("name"), re.sub(r"[\s()]", "", C.text(C.kids(d[0])[-1])))
+        return ""
+    return re.sub(r"[\s()]", "", C.text(n))
+
+
+def _j_span(loop):
+    """(first, last) offsets relative to i of a `for (j = i; [flag &&] j <= i + K; ++j)` loop, or None."""
+    inner = loop.get("inner", [])
+    if len(inner) < 5 or not inner[0] or not inner[2]:
+        return None
+    init = _init_text(inner[0])
+    cond = re.sub(r"[\s()]", "", C.text(inner[2]))
+    m0 = re.search(r"j=i([+-]\d+)?;?$", init)
+    m1 = re.search(r"j(<=|<)i([+-]\d+)?$", cond.split("&&")[-1])
+    if not m0 or not m1:
+        return None
+    lo = int(m0.group(1) or 0)
+    hi = int(m1.group(2) or 0) - (1 if m1.group(1) == "<" else 0)
+    return lo, hi
+
+
+def r5_helix_spans(ctx, cf):
+    """Minimal n-helix (two consecutive n-turns at i-1 and i): residues i .. i+n-1 are marked, and where the marking is conditional on the span
+    being free, the scan covers exactly the residues that are written; H before G before I; outer loops stay n residues away from the end."""
+    fn = cf.function(DC, "calculate_alpha_helices")
+    ctx.analysed_functions.add(DC + ":calculate_alpha_helices")
+    code = {4: "SS_ALPHAHELIX", 3: "SS_HELIX_3", 5: "SS_HELIX_5"}
+    may_overwrite = {3: {"SS_LOOP", "SS_HELIX_3"}, 5: {"SS_LOOP", "SS_HELIX_5", "SS_ALPHAHELIX"}}
+    blocks = {}
+    order = []
+    for outer in [n for n in C.kids(C.body_of(fn)) if n["kind"] == "ForStmt"]:
+        inner = outer.get("inner", [])
+        body = inner[4] if len(inner) >= 5 else None
+        ifs = [n for n in C.walk(body)] if body else []
+        ifs = [n for n in ifs if n["kind"] == "IfStmt" and "helix_flags[i]" in re.sub(r"\s", "", C.text(C.kids(n)[0])) and "helix_flags[(i-1)]" in re.sub(r"\s", "", C.text(C.kids(n)[0])).replace("helix_flags[i-1]", "helix_flags[(i-1)]")]
+        if not ifs:
+            continue
+        cond = re.sub(r"\s", "", C.text(C.kids(ifs[0])[0]))
+        strides = set(int(x) for x in re.findall(r"helix_flags\[\(?i(?:-1)?\)?\]\[(\d)\]", cond))
+        if len(strides) != 1:
+            ctx.violated("C15-R5", C.line(ifs[0]), DC, "calculate_alpha_helices", "two consecutive turns of the same stride", "the condition mixes strides %s: %s" % (sorted(strides), cond[:120]))
+            continue
+        n = strides.pop()
+        order.append(n)
+        blocks[n] = (outer, ifs[0], cond)
+    ctx.decide(order == [4, 3, 5], "C15-R5", C.line(fn), DC, "calculate_alpha_helices", "marking order alpha (4), 3-10 (3), pi (5)", "", "helix marking blocks come in the order %s: the priority H > G > I changes" % order)
+    for n, (outer, ifn, cond) in sorted(blocks.items()):
+        want = code.get(n)
+        ok = cond.count("HELIX_START") >= 4 and cond.count("HELIX_START_AND_END") >= 2 and "||" in cond and "&&" in cond
+        ctx.decide(ok, "C15-R5", C.line(ifn), DC, "calculate_alpha_helices", "%d-helix: turn starts at i-1 and i (START or START_AND_END)" % n, "", "condition is %s" % cond[:160])
+        loops = [l for l in C.walk(C.kids(ifn)[1]) if l["kind"] == "ForStmt"]
+        writes = [l for l in loops if any(c["kind"] == "BinaryOperator" and c.get("opcode") == "=" and C.root_var(C.kids(c)[0])[0] == "secondary" for c in C.walk(l))]
+        scans = [l for l in loops if l not in writes]
+        if len(writes) != 1:
+            ctx.undecided("C15-R5", C.line(ifn), DC, "calculate_alpha_helices", "%d-helix write loop" % n, "expected one loop storing into secondary[], found %d" % len(writes))
+            continue
+        w = writes[0]
+        span = _j_span(w)
+        st = [c for c in C.walk(w) if c["kind"] == "BinaryOperator" and c.get("opcode") == "=" and C.root_var(C.kids(c)[0])[0] == "secondary"][0]
+        val = re.sub(r"\s", "", C.text(C.kids(st)[1]))
+        idx = re.sub(r"[\s()]", "", C.text(C.kids(st)[0]))
+        ctx.decide(span == (0, n - 1) and val == want and idx == "secondary[j]", "C15-R5", C.line(w), DC, "calculate_alpha_helices", "%d-helix marks residues i .. i+%d with %s" % (n, n - 1, want), "",
+                   "the write loop covers offsets %s and stores %s into %s (a minimal %d-helix is residues i .. i+%d)" % (span, val, idx, n, n - 1))
+        if n in may_overwrite:
+            if len(scans) != 1:
+                ctx.violated("C15-R5", C.line(ifn), DC, "calculate_alpha_helices", "%d-helix is marked only over a free span" % n, "found %d scan loops before the marking" % len(scans))
+                continue
+            sspan = _j_span(scans[0])
+            toks = {c["referencedDecl"].get("name") for c in C.walk(scans[0]) if c["kind"] == "DeclRefExpr" and (c["referencedDecl"].get("name") or "").startswith("SS_")}
+            ctx.decide(sspan == span and sspan is not None, "C15-R5", C.line(scans[0]), DC, "calculate_alpha_helices", "%d-helix: the free-span scan covers exactly the residues that are written" % n, "",
+                       "the scan covers offsets %s but offsets %s are overwritten: a residue that already belongs to another element is not looked at" % (sspan, span))
+            ctx.decide(toks == may_overwrite[n], "C15-R5", C.line(scans[0]), DC, "calculate_alpha_helices", "%d-helix may overwrite only %s" % (n, sorted(may_overwrite[n])), "", "the scan accepts %s" % sorted(toks))
+            guard = [c for c in C.walk(C.kids(ifn)[1]) if c["kind"] == "IfStmt" and w in list(C.walk(c))]
+            ctx.decide(bool(guard) and re.sub(r"[\s()]", "", C.text(C.kids(guard[0])[0])) == "empty", "C15-R5", C.line(w), DC, "calculate_alpha_helices", "%d-helix write is guarded by the scan result" % n, "", "the write loop is not under `if (empty)`")
+        oc = re.sub(r"[\s()]", "", C.text(outer["inner"][2])) if outer.get("inner") and outer["inner"][2] else ""
+        oi = _init_text(outer["inner"][0]) if outer.get("inner") and outer["inner"][0] else ""
+        ctx.decide(oc == "i<n_residues-%d" % n and oi.rstrip(";").endswith("i=1"), "C15-R5", C.line(outer), DC, "calculate_alpha_helices", "%d-helix: i runs over 1 .. n_residues-%d-1 (reads i-1, writes up to i+%d)" % (n, n, n - 1), "",
+                   "outer loop is `%s; %s`" % (oi, oc))
+    if sorted(blocks) != [3, 4, 5]:
+        raise AnalysisError("calculate_alpha_helices: helix marking blocks found for strides %s (3, 4, 5 confirmed by hand)" % sorted(blocks))
